@@ -1,7 +1,12 @@
 use crate::bases::*;
 use crate::common::{ClusterHeader, CompressionType};
 use crate::reader::{ByteRegion, ByteStream};
+#[cfg(not(jubako_verif_loom))]
 use std::sync::{Arc, RwLock};
+#[cfg(jubako_verif_loom)]
+use crate::bases::verif_sync::RwLock;
+#[cfg(jubako_verif_loom)]
+use std::sync::Arc;
 
 enum ClusterReader {
     // The reader on the raw data as stored in the cluster.
